@@ -65,7 +65,7 @@ type runner struct {
 
 	steps    int64
 	skipped  int64
-	detours  int64
+	ndetours int64
 	calls    int64
 	paths    int64
 	mu       sync.Mutex
@@ -210,22 +210,35 @@ func (rn *runner) nviol() int {
 	return len(rn.viol)
 }
 
-// detour returns [Add(r, x), Pop(r)] if both are in the graph and lead back to state s.
-func (rn *runner) detour(s *model.State, r int) []model.Op {
+// detours returns round trips s -> t -> s made of two deterministic operations on container r (Add;Pop,
+// Insert;Delete, Reverse;Reverse, Sort;Reverse, Replace;Replace, Set;Unset ...): they leave the abstract heap as
+// it was but may leave hidden state behind (spare capacity, cached flags). One per pair of operation kinds.
+func (rn *runner) detours(s *model.State, r int) [][]model.Op {
+	var out [][]model.Op
+	seen := map[string]bool{}
 	for _, grp := range s.Groups {
 		e := s.Edges[grp[0]]
-		if e.O.Op != "Add" || e.O.R != r || e.To < 0 || len(grp) != 1 || len(e.O.Vs) != 1 || e.O.Vs[0].K == "ref" || e.O.Vs[0].K == "lit" {
+		if e.O.R != r || e.To < 0 || e.To == s.ID || len(grp) != 1 || e.P {
 			continue
 		}
 		mid := rn.g.States[e.To]
+		if len(mid.Heap) != len(s.Heap) {
+			continue // allocating operations cannot be undone
+		}
 		for _, g2 := range mid.Groups {
 			e2 := mid.Edges[g2[0]]
-			if e2.O.Op == "Pop" && e2.O.R == r && e2.To == s.ID && len(g2) == 1 {
-				return []model.Op{e.O, e2.O}
+			if e2.O.R != r || e2.To != s.ID || len(g2) != 1 || e2.P {
+				continue
 			}
+			key := e.O.Op + ";" + e2.O.Op
+			if seen[key] {
+				continue
+			}
+			seen[key] = true
+			out = append(out, []model.Op{e.O, e2.O})
 		}
 	}
-	return nil
+	return out
 }
 
 // pathTo returns the BFS-tree path (group indices) from the initial state to state s.
@@ -399,28 +412,33 @@ func cmdReplay(args []string) int {
 			if len(j.gis) == 1 {
 				op := j.s.Edges[j.s.Groups[j.gis[0]][0]].O
 				for _, target := range []int{op.R, op.J} {
-					if target <= 0 || target > len(j.s.Heap) || j.s.Heap[target-1].T != "L" {
+					if target <= 0 || target > len(j.s.Heap) || (j.s.Heap[target-1].T != "L" && j.s.Heap[target-1].T != "O") {
 						continue
 					}
-					detour := rn.detour(j.s, target)
-					if detour == nil {
+					if target == op.J && op.J == op.R {
 						continue
 					}
-					full := append(append([]model.Op{}, prefix...), detour...)
-					chd := func(st *model.State, k int) int {
-						if k < len(full) {
-							return groupOf(st, full[k])
+					for di, detour := range rn.detours(j.s, target) {
+						// Add;Pop (spare capacity) for every operation; the other round trips on a quarter of them
+						if !(detour[0].Op == "Add" && detour[1].Op == "Pop") && (i+di)%4 != 0 {
+							continue
 						}
-						if k == len(full) && st.ID == j.s.ID {
-							return j.gis[0]
+						full := append(append([]model.Op{}, prefix...), detour...)
+						chd := func(st *model.State, k int) int {
+							if k < len(full) {
+								return groupOf(st, full[k])
+							}
+							if k == len(full) && st.ID == j.s.ID {
+								return j.gis[0]
+							}
+							return -1
 						}
-						return -1
+						if _, _, v := rn.runPath(chd, *seed+int64(i%7), "cover-detour", false); v != nil {
+							rn.report(v)
+							return
+						}
+						atomic.AddInt64(&rn.ndetours, 1)
 					}
-					if _, _, v := rn.runPath(chd, *seed+int64(i%7), "cover-detour", false); v != nil {
-						rn.report(v)
-						return
-					}
-					atomic.AddInt64(&rn.detours, 1)
 				}
 			}
 			_, tr, v := rn.runPath(ch, *seed+int64(i%7), "cover", i%1000 == 0)
@@ -545,7 +563,7 @@ func cmdReplay(args []string) int {
 		"walk_len":               *walkLen,
 		"steps":                  rn.steps,
 		"behaviours_cut":         rn.skipped,
-		"spare_capacity_detours": rn.detours,
+		"spare_capacity_detours": rn.ndetours,
 		"api_calls":              rn.calls,
 		"behaviours":             rn.paths,
 		"distinct_state_ops":     len(rn.distinct),
